@@ -333,6 +333,12 @@ def run_lines(cmd, lines, crash_token, timeout_per_chunk=1800, env=None):
                 i += 1
             restarts += 1
             continue
+        if "##RESTART##" in got:
+            k = got.index("##RESTART##")
+            outs.extend(got[:k])
+            i += k
+            restarts += 1
+            continue
         if len(got) >= len(chunk):
             outs.extend(got[:len(chunk)])
             i += len(chunk)
